@@ -40,7 +40,7 @@ def run(P, rep, tier):
     # (b) length present, (c) newline check, (e) json errors, (f) line endings
     for X in rr.CONTENT_IDS:
         r = res[X]
-        caught = {c[1] for c in r['caught'] if c[0] == R.entry.short}
+        caught = {c[1] for c in r['caught'] if c[1] == 'KeyError' and "key 'length'" in c[2]}
         if 'KeyError' in caught and r['read_n'] == ['length']:
             rep.ok(r1, '%s length required' % X)
         else:
@@ -51,7 +51,7 @@ def run(P, rep, tier):
         else:
             rep.violation(r1, 'newline-check:%s' % X, R.content_fn.loc(), 'section %s can be yielded without the check that its content ends '
                           'with the declared/detected newline' % X, path=[R.content_fn.short])
-        cc = {c[1] for c in r['caught'] if c[0] == R.content_fn.short}
+        cc = {c[1] for c in r['caught'] if c[2].startswith('raised in pydiffx.utils.text:')}
         if 'ValueError' in cc:
             rep.ok(r1, '%s unknown line_endings rejected' % X)
         else:
@@ -68,7 +68,7 @@ def run(P, rep, tier):
         else:
             rep.violation(r1, 'format-guard:%s' % X, R.entry.loc(), 'section %s is yielded with format %s: only an absent format or "json" '
                           'is allowed' % (X, r['format']), path=[R.entry.short])
-        caught = {c[1] for c in r['caught'] if c[0] == R.entry.short}
+        caught = {c[1] for c in r['caught'] if 'json.loads' in c[2]}
         if 'ValueError' in caught:
             rep.ok(r1, '%s invalid JSON rejected' % X)
         else:
